@@ -18,6 +18,7 @@ type Limits struct {
 	MaxBlob   int  // cap on generated string / blob lengths
 	MaxJSONKB int  // cap on large-format padding
 	SmallJSON bool // no >= 64 KiB documents (format bit forcing is still used)
+	Constants bool // every second value is the zero / empty / null value of its type
 }
 
 // Quick and Thorough limits.
@@ -331,6 +332,19 @@ func usecFor(t *rapid.T, fsp int) int {
 // ValueOf draws a non-NULL logical value for column c.
 func ValueOf(t *rapid.T, c hist.Column, lim Limits) hist.Value {
 	var v hist.Value
+	if lim.Constants && rapid.Bool().Draw(t, "constant") {
+		// the value whose text a decoder is most tempted to share between cells: zero, empty, the zero date
+		switch c.Type {
+		case refenc.TBit:
+			v.B = refenc.Lit(make([]byte, (c.Len+7)/8))
+		case refenc.TNewDecimal:
+			v.Dig = strings.Repeat("0", c.P)
+		case refenc.TJSON:
+			v.J = rapid.SampledFrom([]*refenc.JNode{{K: refenc.JNull, Empty: true}, {K: refenc.JNull}, {K: refenc.JTrue}, {K: refenc.JFalse}, {K: refenc.JArray}, {K: refenc.JObject},
+				{K: refenc.JInt}, {K: refenc.JString}}).Draw(t, "constant_json")
+		}
+		return v
+	}
 	switch c.Type {
 	case refenc.TTiny, refenc.TShort, refenc.TInt24, refenc.TLong, refenc.TLongLong:
 		v.U = IntBits(t, hist.IntWidth(c.Type))
